@@ -594,7 +594,7 @@ func (w *World) opRestart() {
 				if _, dg, ok := strings.Cut(strings.SplitN(diffs[0], ": ", 2)[0], " "); ok {
 					if why := mr.causeOf(dg); why != "" {
 						note = " [" + why + "]"
-					} else if _, present := mr.mans[dg]; !present && mr.isChildOfPresent(dg) {
+					} else if _, present := mr.mans[dg]; !present && (mr.isChildOfPresent(dg) || mr.ghosts[dg]) {
 						note = " [deleted manifest still listed as child by a present index]"
 					} else if kind == "refs" {
 						if mr.respLost[dg] {
